@@ -274,7 +274,13 @@ func (em *emitter) _emitExpr(expr ast.Expression, dstType reflect.Type, reg int8
 	case *ast.Slicing:
 
 		exprType := em.typ(expr.Expr)
-		src := em.emitExpr(expr.Expr, exprType)
+		var src int8
+		if ptr, ok := em.pointerOfArray(expr.Expr); ok {
+			// The slice refers to the array pointed by ptr.
+			src = em.emitExpr(ptr, em.typ(ptr))
+		} else {
+			src = em.emitExpr(expr.Expr, exprType)
+		}
 		var low, high int8 = 0, -1
 		var kLow, kHigh = true, true
 		// emit low
@@ -948,7 +954,12 @@ func (em *emitter) emitUnaryOp(expr *ast.UnaryOperator, reg int8, regType reflec
 		// &v[i]
 		// (where v is a slice or an addressable array)
 		case *ast.Index:
-			expr := em.emitExpr(operand.Expr, em.typ(operand.Expr))
+			var expr int8
+			if ptr, ok := em.pointerOfArray(operand.Expr); ok {
+				expr = em.emitExpr(ptr, em.typ(ptr))
+			} else {
+				expr = em.emitExpr(operand.Expr, em.typ(operand.Expr))
+			}
 			index := em.emitExpr(operand.Index, intType)
 			pos := operand.Expr.Pos()
 			if canEmitDirectly(exprType.Kind(), regType.Kind()) {
